@@ -160,7 +160,7 @@ _PROCESS_DEPENDENT = [
 ]
 
 
-SPECIAL_BLOCKS = ("doc", "spell", "deep", "settle", "loader", "overused", "boolexpr", "decofirst")
+SPECIAL_BLOCKS = ("doc", "spell", "deep", "settle", "loader", "overused", "boolexpr", "decofirst", "twostep")
 
 
 def gen_module(rng: random.Random, process_dependent: bool = False, special: bool = False, force: Optional[str] = None) -> str:
@@ -173,6 +173,29 @@ def gen_module(rng: random.Random, process_dependent: bool = False, special: boo
         return f"{prefix}{k[0]}"
 
     parts: List[str] = []
+    if force == "twostep" or (force is None and special and rng.random() < 0.08):
+        # one string that two rules of the same single-run chain want to rewrite (overlapping ranges): the
+        # chain needs two productive rounds, so the text half way is a text of its own
+        esc = rng.choice(["\\d+", "\\w", "\\s*", "\\."])
+        fn = rng.choice(["info", "warning", "debug", "error"])
+        forms = [
+            f'logging.{fn}("found {esc} in {{}}".format(x))',
+            f'logging.{fn}("found {esc} in %s" % x)',
+            f'logging.{fn}(f"found {esc} in {{x}}")',
+            f'logger.{fn}("saw {esc} and {{}} and {{}}".format(x, y))',
+        ]
+        n = rng.randint(1, 3)
+        body = "".join(f"    {rng.choice(forms)}\n" for _ in range(n))
+        text = "import logging\n\nlogger = logging.getLogger(__name__)\n\n\ndef report(x, y):\n" + body + "    return x\n\n\nprint(report(1, 2))\n"
+        import warnings
+
+        try:
+            with warnings.catch_warnings():
+                warnings.simplefilter("ignore")
+                ast.parse(text)
+            return text
+        except (SyntaxError, ValueError):
+            pass
     if force == "doc" or (force is None and process_dependent and rng.random() < 0.35):
         # a multi-line module docstring in front of names that are used but never imported: where and
         # in which order the guessed imports are inserted must not depend on set iteration
